@@ -46,7 +46,12 @@ def check(prop, tier, seed, replay):
     if prop == "C16":
         if replay:
             return T.replay(prop, GENESIS, replay)
-        r = T.merge_runs([(GENESIS, T.run_family(GENESIS, tier, seed)), (GENESIS_APPS, T.run_family(GENESIS_APPS, tier, seed))])
+        # + the BSC and ETH client families: each of their behaviours ends with an Export step (export + re-import of the
+        # chain that holds the client after the headers of that behaviour)
+        from . import fam_bsc as B, fam_eth as E
+        efam = E._fam(tier)
+        r = T.merge_runs([(GENESIS, T.run_family(GENESIS, tier, seed)), (GENESIS_APPS, T.run_family(GENESIS_APPS, tier, seed)),
+                          (B.FAM, T.run_family(B.FAM, tier, seed)), (efam, T.run_family(efam, tier, seed))])
         return T.verdict(prop, GENESIS, tier, seed, r)
     if prop == "C14":
         if replay:
